@@ -121,6 +121,8 @@ def eff_pool(X, Y):
         # conditional effects whose condition is (headed by) a quantifier
         ((eff("assign", b, TRUE, ("exists", VT, p(vT))),), 0),
         ((eff("assign", b, FALSE, ("and", ("forall", VT, p(vT)), b)), eff("assign", n, I(1), NOT(("exists", VT, st(vT))))), 0),
+        # a finite decimal that no binary floating point number represents (1/10)
+        ((eff("inc", m, ("r", 1, 10)),), 0),
     ]
 
 
